@@ -11,11 +11,11 @@ for d in $LIST; do
   W=/tmp/seedrecheck-$d
   rm -rf "$W"; rsync -a --exclude .git /repo/ "$W/"
   if ! ( cd "$W" && patch -p1 --no-backup-if-mismatch < /verif/seeded/$d/patch.diff ) >/dev/null 2>&1; then echo "$d PATCH-FAILS"; rm -rf "$W"; continue; fi
-  VERIF_EVIDENCE_DIR=/tmp/seedrun-evidence VERIF_REPO="$W" ./check "$id" quick > /tmp/seedrecheck-$d.log 2>&1; rc=$?
+  VERIF_EVIDENCE_DIR=/tmp/seedrun-evidence VERIF_REPLAY_DIR=/tmp/seedrun-replays VERIF_REPO="$W" ./check "$id" quick > /tmp/seedrecheck-$d.log 2>&1; rc=$?
   keys="$(grep -o 'violation key=[^ ]*' /tmp/seedrecheck-$d.log | sed 's/violation key=//' | sort -u | head -4 | paste -sd',')"
   if [ $rc -eq 1 ]; then echo "$d caught $keys"; else echo "$d MISSED rc=$rc"; miss=$((miss+1)); fi
   printf '{"check":"%s","tier":"quick","exit":%d,"keys":"%s"}\n' "$id" "$rc" "$keys" > /verif/seeded/$d/recheck.json
-  find /verif/replays -type f -newer /tmp/seedrecheck-$d.log -delete 2>/dev/null
-  rm -rf "$W" /tmp/seedrecheck-$d.log /verif/harness/bin/*-alt-* /verif/harness/.alt-* 2>/dev/null
+  h="$(echo "$W" | md5sum | cut -c1-8)"
+  rm -rf "$W" /tmp/seedrecheck-$d.log /verif/harness/bin/*-alt-$h /verif/harness/.alt-$h.* 2>/dev/null
 done
 echo "missed=$miss"
